@@ -162,6 +162,11 @@ func parseArgsWithExpiration(args map[string]any, defaultHandler func(name strin
 }
 
 func fnGetEx(ctx *cmdContext, args map[string]any) (output respValue, err error) {
+	if len(args) == 1 {
+		// only the key: without an option GETEX is GET, the deadline stays as it is
+		return fnGet(ctx, args)
+	}
+
 	keyName := args["key"].(string)
 
 	expiration, valid := parseArgsWithExpiration(args, nil)
